@@ -3,6 +3,7 @@
      BasisPauli   Basis.pauli(n) for every n
      BasisGGMIdx  the triangular index enumeration of Basis.ggm / ggm_expand is a bijection
      BasisGGM     closed-form coefficients (ggm_expand = expand), Hermiticity, orthonormality for every d
+     BasisGGMComplete  completeness relation of Basis.ggm(d) for every d (bijection + telescoping sum)
      BasisFlags   meaning of isherm / isorthonorm / istraceless; the pre-fix istraceless test differs
      BasisPartial from_partial under the validated null-space oracle, labels, rejection            *)
-From FF Require Export Proofs.BasisAlg Proofs.BasisPauli Proofs.BasisGGMIdx Proofs.BasisGGM Proofs.BasisFlags Proofs.BasisPartial.
+From FF Require Export Proofs.BasisAlg Proofs.BasisPauli Proofs.BasisGGMIdx Proofs.BasisGGM Proofs.BasisGGMComplete Proofs.BasisFlags Proofs.BasisPartial.
